@@ -230,8 +230,11 @@ def domain(ctx):
                 cases.append({"gen": name, "args": args, "kwargs": kwargs, "pretty": pretty, "prefix": pf, "seed": 7})
     helpers = []
     for num in list(range(0, 25)) + [26, 30]:
-        for ex in ("", "x", "xyzab", "abcdf"):
+        # hold-outs from the pool, and hold-outs that are not in the pool at all (e, i are never generated): those take nothing away
+        for ex in ("", "x", "xyzab", "abcdf", "ei", "xei", "eiEI2", "xyei"):
             for seed in range(3 if q else 30):
+                if len(ex) > 2 and ex not in ("xyzab", "abcdf") and num < 18 and seed > 0:
+                    continue
                 helpers.append({"typ": "vars", "num": num, "exclude": ex, "common": False, "seed": seed})
     for num in (0, 1, 2, 3):
         for ex in ("", "x"):
